@@ -308,7 +308,7 @@ def main(argv=None) -> int:
                     skipped=p["skipped"],
                     wall_s=round(p["wall"], 2),
                     inconclusive_budget=p["over_budget"],
-                    labels=dict(p["labels"].most_common(40)),
+                    labels=dict(p["labels"].most_common(150)),
                     signatures=p["signatures"],
                 )
                 for n, p in sorted(per_cell.items())
